@@ -23,6 +23,7 @@ type world struct {
 	bufs map[string][]byte // named byte buffers
 	log  *spyLog
 	mark int
+	flag bool                     // set by a step with "setflag" (did it succeed?); steps with "ifflag" are skipped unless it is set
 	vers map[string]cose.Verifier // session mode: one verifier value per description, shared by all cases of the session
 }
 
@@ -426,6 +427,10 @@ func (w *world) step(st J) J {
 	obs := J{"op": op, "obj": str(st["obj"])}
 	var err error
 	name := str(st["obj"])
+	if st["ifflag"] == true && !w.flag {
+		op = "probe" // the step depends on an earlier one that failed: nothing is done, the state is reported
+		obs["skipped"] = true
+	}
 	panicked := guard(func() {
 		switch op {
 		case "new":
@@ -752,6 +757,11 @@ func (w *world) step(st J) J {
 				obs["out"] = rawJ(b)
 				obs["outnil"] = b == nil
 			}
+		case "peek":
+			// no operation: reports the content of a buffer
+			b := w.bufs[str(st["buf"])]
+			obs["out"] = rawJ(b)
+			obs["outnil"] = b == nil
 		case "probe":
 			// no operation: only reports the projected state of the object
 		case "scribble":
@@ -768,6 +778,9 @@ func (w *world) step(st J) J {
 		obs["panic"] = panicked
 	} else {
 		obs["res"] = errClass(err)
+	}
+	if st["setflag"] == true {
+		w.flag = panicked == "" && err == nil
 	}
 	obs["calls"] = w.newCalls()
 	if o, ok := w.objs[name]; ok && name != "" {
